@@ -413,7 +413,27 @@ fn run_history<N: NameLike>(c: &C18Case, vio: &mut Vec<(String, String)>, stats:
                 let members: Vec<VersionSetId> = idx.iter().map(|&i| vs_list[i as usize % vs_list.len()]).collect();
                 // the remaining members arrive through iterators with different size hints
                 let rest: Vec<VersionSetId> = members[1..].to_vec();
-                let id: VersionSetUnionId = match (idx.iter().sum::<u32>() as usize + i) % 4 {
+                // one union in five is interned through an iterator that RE-ENTERS the pool while it is
+                // being consumed: it interns another union (the reversed member list), a string and a
+                // version set of its own before handing out its first item
+                let nested: std::cell::Cell<Option<VersionSetUnionId>> = std::cell::Cell::new(None);
+                let id: VersionSetUnionId = match (idx.iter().sum::<u32>() as usize + i) % 5 {
+                    4 => {
+                        let mut it = rest.clone().into_iter();
+                        let (pool_ref, nested_ref) = (&pool, &nested);
+                        let mut rev = members.clone();
+                        rev.reverse();
+                        pool.intern_version_set_union(
+                            members[0],
+                            std::iter::from_fn(|| {
+                                if nested_ref.get().is_none() {
+                                    let _ = pool_ref.intern_string("interned while a union was being built");
+                                    nested_ref.set(Some(pool_ref.intern_version_set_union(rev[0], rev[1..].iter().copied())));
+                                }
+                                it.next()
+                            }),
+                        )
+                    }
                     0 => pool.intern_version_set_union(members[0], rest.iter().copied()),
                     1 => {
                         // (0, None)
@@ -427,10 +447,26 @@ fn run_history<N: NameLike>(c: &C18Case, vio: &mut Vec<(String, String)>, stats:
                     }
                     _ => pool.intern_version_set_union(members[0], rest.iter().copied().filter(|_| true)), // (0, Some(n))
                 };
-                if id.0 != n_union {
-                    bad("union ids are not dense / unique", format!("expected {} got {}", n_union, id.0));
+                if let Some(nid) = nested.get() {
+                    // two unions were created by this operation: together they take the next two ids
+                    let mut got2 = [nid.0, id.0];
+                    got2.sort();
+                    if got2 != [n_union, n_union + 1] {
+                        bad("union ids are not dense / unique", format!("expected {} and {} got {:?}", n_union, n_union + 1, got2));
+                    }
+                    n_union += 2;
+                    let mut rev = members.clone();
+                    rev.reverse();
+                    let gotn: Vec<VersionSetId> = pool.resolve_version_set_union(nid).collect();
+                    if gotn != rev {
+                        bad("resolve_version_set_union returns something else than was interned", format!("union interned from inside the iterator of another: {:?} vs {:?}", gotn.iter().map(|v| v.0).collect::<Vec<_>>(), rev.iter().map(|v| v.0).collect::<Vec<_>>()));
+                    }
+                } else {
+                    if id.0 != n_union {
+                        bad("union ids are not dense / unique", format!("expected {} got {}", n_union, id.0));
+                    }
+                    n_union += 1;
                 }
-                n_union += 1;
                 let got: Vec<VersionSetId> = pool.resolve_version_set_union(id).collect();
                 if got != members {
                     bad("resolve_version_set_union returns something else than was interned", format!("{:?} vs {:?}", got.iter().map(|v| v.0).collect::<Vec<_>>(), members.iter().map(|v| v.0).collect::<Vec<_>>()));
